@@ -29,12 +29,74 @@ pub struct Case {
     pub extra: Vec<Vec<u8>>,
     /// exhaustive string length over {a,b,c}
     pub depth: usize,
+    /// the tagged choice is not the outermost combinator: `prefix (choice) suffix`, or with
+    /// `looped` `prefix (choice)+ suffix` -- an alternative then completes before the whole
+    /// expression accepts (the shape of a tagged key table followed by a terminator)
+    #[serde(default)]
+    pub context: Option<Context>,
+}
+
+#[derive(Clone, Debug, Serialize, Deserialize)]
+pub struct Context {
+    pub prefix: Option<Re>,
+    pub suffix: Option<Re>,
+    pub looped: bool,
 }
 
 const ABC: &[u8] = b"abc";
 const WIDE: &[u8] = b"abc\x1b\xff0";
 
 fn build(case: &Case) -> NFA<usize> {
+    let Some(ctx) = &case.context else {
+        return build_choice(case);
+    };
+    let mut body = build_choice(case);
+    if ctx.looped {
+        body = body.some();
+    }
+    let mut parts: Vec<NFA<usize>> = Vec::new();
+    if let Some(p) = &ctx.prefix {
+        parts.push(p.build::<usize>(case.variant));
+    }
+    parts.push(body);
+    if let Some(x) = &ctx.suffix {
+        parts.push(x.build::<usize>(case.variant));
+    }
+    NFA::sequence(parts)
+}
+
+/// expressions against which acceptance and tags are judged: one per alternative ("the input
+/// ends exactly at the end of this alternative") followed by the whole expression
+fn reference(case: &Case) -> Vec<Re> {
+    let choice = Re::Alt(case.alts.clone());
+    let Some(ctx) = &case.context else {
+        let mut out = case.alts.clone();
+        out.push(choice);
+        return out;
+    };
+    let lead: Vec<Re> = ctx
+        .prefix
+        .iter()
+        .cloned()
+        .chain(ctx.looped.then(|| Re::Star(Box::new(choice.clone()))))
+        .collect();
+    let mut out: Vec<Re> = case
+        .alts
+        .iter()
+        .map(|a| {
+            let mut parts = lead.clone();
+            parts.push(a.clone());
+            Re::Seq(parts)
+        })
+        .collect();
+    let mut whole: Vec<Re> = ctx.prefix.iter().cloned().collect();
+    whole.push(if ctx.looped { Re::Plus(Box::new(choice)) } else { choice });
+    whole.extend(ctx.suffix.iter().cloned());
+    out.push(Re::Seq(whole));
+    out
+}
+
+fn build_choice(case: &Case) -> NFA<usize> {
     if !case.tagged && case.alts.len() == 1 {
         return case.alts[0].build::<usize>(case.variant);
     }
@@ -79,13 +141,14 @@ impl Walker<'_> {
     fn check_node(&mut self, s: &[u8], st: DFAState, ders: &[Re]) -> Result<(), Fail> {
         self.visited += 1;
         let info = self.dfa.info(st);
+        let (whole, ders) = ders.split_last().expect("reference expressions");
         let matching: BTreeSet<usize> = ders
             .iter()
             .enumerate()
             .filter(|(_, d)| d.nullable())
             .map(|(i, _)| i)
             .collect();
-        let want_accept = !matching.is_empty();
+        let want_accept = whole.nullable();
         if want_accept {
             self.accepted += 1;
         }
@@ -118,7 +181,7 @@ impl Walker<'_> {
         }
         if info.is_terminal {
             for &x in &self.alphabet {
-                let ext = ders.iter().any(|d| d.deriv(x).inhabited());
+                let ext = whole.deriv(x).inhabited();
                 ensure!(
                     !ext,
                     "terminal/extendable",
@@ -163,7 +226,7 @@ impl Walker<'_> {
         match next {
             None => {
                 self.dead += 1;
-                let viable = nders.iter().any(Re::inhabited);
+                let viable = nders.last().is_some_and(Re::inhabited);
                 let r = if viable {
                     Err(Fail::new(
                         "language/dead-but-viable",
@@ -227,15 +290,26 @@ impl Property for C15 {
             variant,
             extra,
             depth,
+            context: None,
         });
+        let context = proptest::option::weighted(
+            0.4,
+            (
+                proptest::option::of(re_strategy(WIDE, 2, false)),
+                proptest::option::of(re_strategy(WIDE, 2, false)),
+                any::<bool>(),
+            )
+                .prop_map(|(prefix, suffix, looped)| Context { prefix, suffix, looped }),
+        );
         let tagged = (
             proptest::collection::vec(re_strategy(WIDE, 3, true), 2..=5),
             proptest::option::of(0usize..4),
             any::<bool>(),
             any::<bool>(),
             extra,
+            context,
         )
-            .prop_map(move |(mut alts, nested, dup, variant, extra)| {
+            .prop_map(move |(mut alts, nested, dup, variant, extra, context)| {
                 if dup {
                     // equal alternatives / overlapping languages
                     let first = alts[0].clone();
@@ -249,6 +323,7 @@ impl Property for C15 {
                     variant,
                     extra,
                     depth: depth.min(5),
+                    context,
                 }
             });
         prop_oneof![3 => single, 2 => tagged].boxed()
@@ -259,6 +334,9 @@ impl Property for C15 {
         let dfa = guard_val(|| nfa.compile())?;
         let mut alphabet = BTreeSet::new();
         case.alts.iter().for_each(|r| r.alphabet(&mut alphabet));
+        if let Some(ctx) = &case.context {
+            ctx.prefix.iter().chain(ctx.suffix.iter()).for_each(|r| r.alphabet(&mut alphabet));
+        }
         alphabet.extend(ABC.iter().copied());
         let mut w = Walker {
             case,
@@ -269,7 +347,7 @@ impl Property for C15 {
             dead: 0,
         };
         let start = dfa.start();
-        let ders: Vec<Re> = case.alts.clone();
+        let ders: Vec<Re> = reference(case);
         w.check_node(&[], start, &ders)?;
         w.dfs(&mut Vec::new(), start, &ders, case.depth)?;
         for extra in &case.extra {
@@ -291,6 +369,8 @@ impl Property for C15 {
         Ok(Pass::new(nontrivial)
             .label(if case.tagged { "tagged-choice" } else { "single-expression" })
             .label_if(case.nested_from.is_some() && case.tagged, "nested-choice")
+            .label_if(case.context.is_some(), "tagged-choice-inside-a-sequence")
+            .label_if(case.context.as_ref().is_some_and(|c| c.looped), "tagged-choice-inside-a-loop")
             .label_if(w.accepted > 0, "accepts-something")
             .label_if(w.dead > 0, "has-dead-transition")
             .label_if(nontrivial, "postfix-on-composite"))
@@ -301,13 +381,13 @@ impl Property for C15 {
     }
 
     fn rule(&self) -> String {
-        "expressions: recursive AST (depth<=4, <=24 nodes) over bytes {a,b,c,ESC,0xff,'0'} with literal, byte-set (incl. empty), empty, nothing, sequence, choice, optional, one-or-more, zero-or-more, extra weight on ?/+ around operands beginning/ending with a loop; 40% as a tagged top-level choice of 2-6 alternatives (flat or with a nested group, duplicates allowed). Built via the public NFA API (two spellings), compiled, and compared with a Brzozowski-derivative matcher on ALL strings over {a,b,c} up to length 5 (thorough 6) plus up to 6 random strings of length <20: acceptance, dead-transition soundness, tag sets, terminal flag, determinism. non-trivial = some postfix operator is applied to a non-atomic operand".into()
+        "expressions: recursive AST (depth<=4, <=24 nodes) over bytes {a,b,c,ESC,0xff,'0'} with literal, byte-set (incl. empty), empty, nothing, sequence, choice, optional, one-or-more, zero-or-more, extra weight on ?/+ around operands beginning/ending with a loop; 40% as a tagged choice of 2-6 alternatives (flat or with a nested group, duplicates allowed), in 40% of those placed inside a sequence `prefix (choice) suffix` or `prefix (choice)+ suffix` so that an alternative completes before the whole expression accepts. Built via the public NFA API (two spellings), compiled, and compared with a Brzozowski-derivative matcher on ALL strings over {a,b,c} up to length 5 (thorough 6) plus up to 6 random strings of length <20: acceptance, dead-transition soundness, tag sets, terminal flag, determinism. non-trivial = some postfix operator is applied to a non-atomic operand".into()
     }
 
     fn assumptions(&self) -> Vec<String> {
         vec![
             "a dead transition must imply that no extension can match; a live state that cannot reach acceptance is allowed (it is never reported accepting)".into(),
-            "tag oracle applies to tags placed on the alternatives of a top-level (possibly nested) choice, the only shape in which 'tags after consuming a string' is well defined".into(),
+            "tag oracle: tags are placed on the alternatives of one (possibly nested) choice, top-level or inside `prefix (choice)[+] suffix`; after consuming s the reported tags must be exactly { i : s is in L(prefix (choice)* alternative_i) }, i.e. the input ends exactly where alternative i ends -- whether or not the state is accepting".into(),
         ]
     }
 }
